@@ -9,10 +9,12 @@
    (the t -> infinity limit); the lift from "right-hand sides agree / vanish" to
    statements about the returned curves (Picard-Lindeloef uniqueness, cited; for
    dI = -gamma I the solution I0 exp(-gamma t) is the classical scalar one);
-   the 2-D systems (heterogeneous pairwise, effective degree) and the
-   node-level systems (individual based, pair based) for the tau=0 / gamma=0
-   clauses. *)
-From EoNV Require Import Prelude Vec VecP Aux Rhs RhsP.
+   the tau=0 / gamma=0 clauses about the CURVES of the 2-D and node-level
+   systems (their right-hand-side identities are proved in the second part
+   of this file over the hand-written models of Model/Rhs2D.v, which the last
+   part (theorems C08_generated_...) proves equal to the definitions regenerated from the
+   source on every run, Gen/Rhs2.v), and tree exactness beyond the single edge. *)
+From EoNV Require Import Prelude Graph Vec VecP Aux Rhs RhsP Rhs2D Rhs2DP Rhs2 Rhs2GenP.
 
 (* ---------------- tau = 0 ---------------- *)
 (* Reading of "I(t) = I(0) exp(-gamma t) with S constant": for the SIR models
@@ -215,3 +217,192 @@ Print Assumptions C08_ebcm_discrete_conserves.
 Print Assumptions C08_nonvacuous_compact_pairwise.
 Print Assumptions C08_nonvacuous_attack_cts.
 Print Assumptions C08_nonvacuous_ebcm_discrete.
+
+
+(* ====================================================================== *)
+(* 2-D and node-level systems (Model/Rhs2D.v, hand-written; = Gen/Rhs2.v   *)
+(* by the C08_generated_.. theorems below; proofs in Proofs/Rhs2DP.v)      *)
+(* ====================================================================== *)
+(* ---------------- tau = 0 ---------------- *)
+(* node level: "tau = 0" is trans_rate_fxn == 0; componentwise dX_i = 0, dY_i = - gamma_i Y_i *)
+Theorem C08_tau0_SIS_individual_based : forall G nodelist idx tr rc Y i,
+  (forall u v, tr u v == 0) -> ibSIS_dY G nodelist idx tr rc Y i == - rc (node_at nodelist i) * vnth i Y.
+Proof. exact ibSIS_tau0. Qed.
+Theorem C08_tau0_SIR_individual_based : forall G nodelist idx tr rc V i,
+  (forall u v, tr u v == 0) ->
+  ibSIR_dX G nodelist idx tr V i == 0 /\
+  ibSIR_dY G nodelist idx tr rc V i == - rc (node_at nodelist i) * vnth (nN nodelist + i) V.
+Proof. exact ibSIR_tau0. Qed.
+Theorem C08_tau0_SIS_pair_based : forall G nodelist idx tr rc V i,
+  (forall u v, tr u v == 0) -> pbSIS_dY G nodelist idx tr rc V i == - rc (node_at nodelist i) * psY V i.
+Proof. exact pbSIS_tau0. Qed.
+Theorem C08_tau0_SIR_pair_based : forall G nodelist idx tr rc V i,
+  (forall u v, tr u v == 0) ->
+  pbSIR_dX G nodelist idx tr V i == 0 /\
+  pbSIR_dY G nodelist idx tr rc V i == - rc (node_at nodelist i) * prY nodelist V i.
+Proof. exact pbSIR_tau0. Qed.
+(* heterogeneous pairwise: SIS state (Sk, SkSl, SkIl), I_k = N_k - S_k: dS_k = gamma I_k; SIR: dS_k = 0, dI_k = - gamma I_k *)
+Theorem C08_tau0_SIS_heterogeneous_pairwise : forall X Nk gamma Ks i,
+  hs_dSk X Nk 0 gamma Ks i == gamma * hs_Ik X Nk i.
+Proof. exact hpSIS_tau0. Qed.
+Theorem C08_tau0_SIR_heterogeneous_pairwise : forall X gamma Ks i,
+  hr_dSk X 0 Ks i == 0 /\ hr_dIk X 0 gamma Ks i == - gamma * hr_Ik X Ks i.
+Proof. exact hpSIR_tau0. Qed.
+(* effective degree: the cells S_{s,i} do move when tau = 0 (neighbours recover), the totals obey S' = 0 (SIR) /
+   S' = + gamma I (SIS) and I' = - gamma I.  SIS needs the state to vanish on the cells from which the code's
+   zero-padded shifts lose mass (boundary0: last row i >= 1, last column s >= 1; true on the model's feasible
+   region S_{s,i} = 0 for s + i > kmax); SIR needs nothing. *)
+Theorem C08_tau0_SIS_effective_degree : forall r c, (1 <= r)%nat -> (1 <= c)%nat -> forall X gamma,
+  boundary0 r c (es_S X c) -> boundary0 r c (es_I X r c) ->
+  sumn2 r c (es_dS X r c 0 gamma) == gamma * sumn2 r c (es_I X r c) /\
+  sumn2 r c (es_dI X r c 0 gamma) == - gamma * sumn2 r c (es_I X r c).
+Proof. exact edSIS_tau0. Qed.
+Theorem C08_tau0_SIR_effective_degree : forall r c, (1 <= r)%nat -> (1 <= c)%nat -> forall X N gamma,
+  sumn2 r c (er_dS X r c 0 gamma) == 0 /\
+  - sumn2 r c (er_dS X r c 0 gamma) - er_dR X N r c gamma == - gamma * (N - sumn2 r c (er_S X c) - er_R X r c).
+Proof. exact edSIR_tau0. Qed.
+
+(* ---------------- gamma = 0 ---------------- *)
+(* individual based: at X = 1 - Y the SIS field is the Y-part of the SIR field and dX = -dY *)
+Theorem C08_gamma0_individual_based : forall G nodelist idx tr rc Y i,
+  (forall u, rc u == 0) -> (i < nN nodelist)%nat ->
+  let V := tab (nN nodelist) (fun k => 1 - vnth k Y) ++ Y in
+  ibSIS_dY G nodelist idx tr rc Y i == ibSIR_dY G nodelist idx tr rc V i /\
+  ibSIR_dX G nodelist idx tr V i == - ibSIS_dY G nodelist idx tr rc Y i.
+Proof. exact ib_gamma0. Qed.
+(* pair based: SIS state W = Y ++ XY ++ XX, SIR state (1 - Y) ++ W: all four blocks agree *)
+Theorem C08_gamma0_pair_based : forall G nodelist idx tr rc W i j,
+  (forall u, rc u == 0) -> (i < nN nodelist)%nat -> (j < nN nodelist)%nat ->
+  let V := tab (nN nodelist) (fun k => 1 - vnth k W) ++ W in
+  pbSIR_dY G nodelist idx tr rc V i == pbSIS_dY G nodelist idx tr rc W i /\
+  pbSIR_dX G nodelist idx tr V i == - pbSIS_dY G nodelist idx tr rc W i /\
+  pbSIR_dXY G nodelist idx tr rc V i j == pbSIS_dXY G nodelist idx tr rc W i j /\
+  pbSIR_dXX G nodelist idx tr V i j == pbSIS_dXX G nodelist idx tr rc W i j.
+Proof. exact pb_gamma0. Qed.
+(* heterogeneous pairwise: SIS state Sk ++ M, SIR state Sk ++ Ik ++ M (M = SkSl ++ SkIl).  "Where true": the two
+   functions guard their denominators differently (kxSk[kxSk==0]=1 vs tmpKs[..]=1, tmpSk[..]=1), so the identity is
+   stated where no guard fires, k <> 0 and [S_k] <> 0 for every class *)
+Theorem C08_gamma0_heterogeneous_pairwise : forall Sk Ik M Nk NkNl tau Ks i j,
+  length Sk = length Ks -> length Ik = length Ks ->
+  (forall l, (l < length Ks)%nat -> ~ vnth l Ks == 0 /\ ~ vnth l Sk == 0) ->
+  (i < length Ks)%nat -> (j < length Ks)%nat ->
+  let Xs := Sk ++ M in let Xr := Sk ++ Ik ++ M in
+  hs_dSk Xs Nk tau 0 Ks i == hr_dSk Xr tau Ks i /\
+  hs_dSkSl Xs tau 0 Ks i j == hr_dSkSl Xr tau Ks i j /\
+  hs_dSkIl Xs NkNl tau 0 Ks i j == hr_dSkIl Xr tau 0 Ks i j.
+Proof. exact hp_gamma0. Qed.
+(* effective degree: the S-blocks coincide cell by cell *)
+Theorem C08_gamma0_effective_degree : forall r c, (1 <= r)%nat -> (1 <= c)%nat -> forall Ssi Isi R tau s i,
+  length Ssi = (r * c)%nat -> (s < r)%nat -> (i < c)%nat ->
+  es_dS (Ssi ++ Isi) r c tau 0 s i == er_dS (Ssi ++ [R]) r c tau 0 s i.
+Proof. exact ed_gamma0. Qed.
+
+(* ---------------- trees: the single edge ---------------- *)
+(* FULL STATEMENT (cited, Sharkey et al. 2015; validated numerically on every tree up to the size bound):
+   on every tree, from every pure initial condition, SIR_pair_based returns the expected S, I, R of the exact
+   3^N-state Markov chain.  Proved: the case of one edge, as an identity between right-hand sides, for EVERY
+   probability vector p over the 9 states (a fortiori the states reachable from a pure initial condition), with
+   direction-dependent transmission rates and node-dependent recovery rates: the marginals of p move under the
+   master equation exactly as the pair-based system prescribes, and the closure sums are empty.  Missing for the
+   general statement: the cut-vertex conditional-independence argument and ODE uniqueness. *)
+Theorem C08_pair_based_tree_exact_partial : forall t01 t10 g0 g1 pSS pSI pSR pIS pII pIR pRS pRI pRR t,
+  let p := [pSS; pSI; pSR; pIS; pII; pIR; pRS; pRI; pRR] in
+  veq (dSIR_pair_based edge_graph [0%N; 1%N] edge_idx (edge_tr t01 t10) (edge_rc g0 g1) (marginals1 p) t)
+      (marginals1 (master1 t01 t10 g0 g1 p)).
+Proof. exact pair_based_single_edge_exact. Qed.
+Theorem C08_single_edge_no_closure : forall t01 t10 Xi XY XX i j,
+  (i < 2)%nat -> (j < 2)%nat -> is_edge edge_graph [0%N; 1%N] i j = true ->
+  triples_in edge_graph [0%N; 1%N] edge_idx (edge_tr t01 t10) Xi XY XX i j == 0 /\
+  triples_out edge_graph [0%N; 1%N] edge_idx (edge_tr t01 t10) Xi XY XX i j == 0.
+Proof. exact single_edge_no_closure. Qed.
+
+(* ---- non-vacuity ---- *)
+(* a pure initial condition (node 0 infected, node 1 susceptible): the two sides are not trivially zero *)
+Example C08_nonvacuous_single_edge :
+  dSIR_pair_based edge_graph [0%N; 1%N] edge_idx (edge_tr 2 3) (edge_rc 1 1) (marginals1 [0; 0; 0; 1; 0; 0; 0; 0; 0]) 0
+  = [0; -3; -1; 3; 0; 0; -4; 0; 0; 0; 0; 0].
+Proof. vm_compute. reflexivity. Qed.
+(* a state on the feasible region of the effective-degree model (kmax = 1) with non-zero totals *)
+Example C08_nonvacuous_effective_degree :
+  let X := [3; 2; 1; 0; 1; 1; 2; 0] in
+  boundary0 2 2 (es_S X 2) /\ boundary0 2 2 (es_I X 2 2) /\ ~ sumn2 2 2 (es_I X 2 2) == 0.
+Proof.
+  cbv zeta. split; [|split].
+  - split; intros k Hk; assert (k = 1%nat) by lia; subst; reflexivity.
+  - split; intros k Hk; assert (k = 1%nat) by lia; subst; reflexivity.
+  - intro H. vm_compute in H. discriminate.
+Qed.
+(* the guard-free region of C08_gamma0_heterogeneous_pairwise is inhabited *)
+Example C08_nonvacuous_heterogeneous_pairwise :
+  let Ks := [2; 3] in let Sk := [5; 7] in
+  forall l, (l < length Ks)%nat -> ~ vnth l Ks == 0 /\ ~ vnth l Sk == 0.
+Proof. cbv zeta. intros l Hl. cbn [length] in Hl. destruct l as [|[|l]]; try lia; split; intro H; vm_compute in H; discriminate. Qed.
+
+Print Assumptions C08_tau0_SIS_individual_based.
+Print Assumptions C08_tau0_SIR_individual_based.
+Print Assumptions C08_tau0_SIS_pair_based.
+Print Assumptions C08_tau0_SIR_pair_based.
+Print Assumptions C08_tau0_SIS_heterogeneous_pairwise.
+Print Assumptions C08_tau0_SIR_heterogeneous_pairwise.
+Print Assumptions C08_tau0_SIS_effective_degree.
+Print Assumptions C08_tau0_SIR_effective_degree.
+Print Assumptions C08_gamma0_individual_based.
+Print Assumptions C08_gamma0_pair_based.
+Print Assumptions C08_gamma0_heterogeneous_pairwise.
+Print Assumptions C08_gamma0_effective_degree.
+Print Assumptions C08_pair_based_tree_exact_partial.
+Print Assumptions C08_single_edge_no_closure.
+Print Assumptions C08_nonvacuous_single_edge.
+Print Assumptions C08_nonvacuous_effective_degree.
+Print Assumptions C08_nonvacuous_heterogeneous_pairwise.
+
+(* ====================================================================== *)
+(* the hand-written models ARE the code: definitions generated from the    *)
+(* source on every run (Gen/Rhs2.v, translate/rhs2d2v.py, fail-closed)     *)
+(* equal the models of Model/Rhs2D.v that the theorems above are about     *)
+(* ====================================================================== *)
+(* Domain: shapes consistent (where numpy would raise nothing is claimed).  Pair based: `pb_wfb G nodelist idx`
+   (boolean) = G.order() = len(nodelist), index_of_node[nodelist[i]] = i, adjacency lists duplicate-free and inside
+   nodelist -- what every caller in analytic.py establishes (index_of_node = {node: i for i, node in
+   enumerate(nodelist)} over a simple graph); under it the code's accumulation `dA[index_of_node[u], ..] += ..`
+   over nested neighbour loops writes every cell from exactly one (u, v) and equals the closed form of the model. *)
+Theorem C08_generated_SIS_individual_based : forall Y t G nodelist idx tr rc,
+  length Y = length nodelist ->
+  veq (g_dSIS_individual_based Y t G nodelist idx tr rc) (dSIS_individual_based G nodelist idx tr rc Y t).
+Proof. exact gen_dSIS_individual_based. Qed.
+Theorem C08_generated_SIR_individual_based : forall V t G nodelist idx tr rc,
+  length V = (2 * length nodelist)%nat ->
+  veq (g_dSIR_individual_based V t G nodelist idx tr rc) (dSIR_individual_based G nodelist idx tr rc V t).
+Proof. exact gen_dSIR_individual_based. Qed.
+Theorem C08_generated_SIS_pair_based : forall G nodelist idx tr rc, pb_wfb G nodelist idx = true -> forall V t,
+  veq (g_dSIS_pair_based V t G nodelist idx tr rc) (dSIS_pair_based G nodelist idx tr rc V t).
+Proof. exact gen_dSIS_pair_based. Qed.
+Theorem C08_generated_SIR_pair_based : forall G nodelist idx tr rc, pb_wfb G nodelist idx = true -> forall V t,
+  veq (g_dSIR_pair_based V t G nodelist idx tr rc) (dSIR_pair_based G nodelist idx tr rc V t).
+Proof. exact gen_dSIR_pair_based. Qed.
+Theorem C08_generated_SIS_heterogeneous_pairwise : forall X t Nk NkNl tau gamma Ks,
+  length Nk = length Ks ->
+  veq (g_dSIS_heterogeneous_pairwise X t Nk NkNl tau gamma Ks) (dSIS_heterogeneous_pairwise X Nk NkNl tau gamma Ks t).
+Proof. exact gen_dSIS_heterogeneous_pairwise. Qed.
+Theorem C08_generated_SIR_heterogeneous_pairwise : forall X t tau gamma Nk Ks,
+  veq (g_dSIR_heterogeneous_pairwise X t tau gamma Nk Ks) (dSIR_heterogeneous_pairwise X tau gamma Ks t).
+Proof. exact gen_dSIR_heterogeneous_pairwise. Qed.
+Theorem C08_generated_SIS_effective_degree : forall X t r c tau gamma,
+  veq (g_dSIS_effective_degree X t (r, c) tau gamma) (dSIS_effective_degree X r c tau gamma t).
+Proof. exact gen_dSIS_effective_degree. Qed.
+Theorem C08_generated_SIR_effective_degree : forall X t N r c tau gamma,
+  length X = (r * c + 1)%nat ->
+  veq (g_dSIR_effective_degree X t N (r, c) tau gamma) (dSIR_effective_degree X N r c tau gamma t).
+Proof. exact gen_dSIR_effective_degree. Qed.
+(* non-vacuity of pb_wfb: the triangle with nodelist = its nodes and idx the position *)
+Example C08_generated_wf_nonvacuous : pb_wfb tri_graph tri_nodes tri_idx = true.
+Proof. vm_compute. reflexivity. Qed.
+Print Assumptions C08_generated_SIS_individual_based.
+Print Assumptions C08_generated_SIR_individual_based.
+Print Assumptions C08_generated_SIS_pair_based.
+Print Assumptions C08_generated_SIR_pair_based.
+Print Assumptions C08_generated_SIS_heterogeneous_pairwise.
+Print Assumptions C08_generated_SIR_heterogeneous_pairwise.
+Print Assumptions C08_generated_SIS_effective_degree.
+Print Assumptions C08_generated_SIR_effective_degree.
+Print Assumptions C08_generated_wf_nonvacuous.
